@@ -118,7 +118,23 @@ def build(tier):
             context == AttrInheritContext::MethodFromImpl ==> r.attrs@.len() == self.attrs@.len(),
             context != AttrInheritContext::MethodFromImpl ==> r.attrs@.len() == 0,""", ret_name="r")
     vf.add_piece(p, expected="attrs_for_inheritance")
-    vf.add("}\n}\n")
+    # add_attr: an item's own abi_rename attribute always overrides what is already there (the inherited pattern seeded by the
+    # callers); other attribute kinds never touch abi_rename
+    vhelp_attr = ast.item("Attr", "enum")
+    p = Piece(ast, ast.item("impl Attrs::add_attr", "fn"))
+    p.sub("E1", r"\A(\s*)fn add_attr", r"\1pub fn add_attr", count=1, why="private fn made pub")
+    p.contract(f"""        ensures {CANARY}
+            match attr {{
+                Attr::CRename(rename) => final(self).abi_rename.pattern == extend_pattern(old(self).abi_rename.pattern, rename.pattern)
+                    && final(self).attrs@ == old(self).attrs@ && final(self).cfg@ == old(self).cfg@ && final(self).demo_attrs@ == old(self).demo_attrs@,
+                Attr::DiplomatBackend(a) => final(self).abi_rename == old(self).abi_rename && final(self).attrs@ == old(self).attrs@.push(a),
+                Attr::Cfg(a) => final(self).abi_rename == old(self).abi_rename && final(self).cfg@ == old(self).cfg@.push(a) && final(self).attrs@ == old(self).attrs@,
+                Attr::DemoBackend(a) => final(self).abi_rename == old(self).abi_rename && final(self).demo_attrs@ == old(self).demo_attrs@.push(a) && final(self).attrs@ == old(self).attrs@,
+            }},""")
+    vf.add_piece(p, expected="add_attr")
+    vf.add("}\n")
+    vhelp.typedef(vf, ast, "Attr", "enum")
+    vf.add("}\n")
     # ---- hir::Attrs
     vf.add("pub mod hir_attrs {\nuse super::*;\n")
     vhelp.typedef(vf, hir, "Attrs", "struct")
